@@ -756,7 +756,9 @@ pub fn driver<P: Prop>(args: &DriverArgs) -> i32 {
                     }
                 }
                 if let Some(f) = r.failure {
-                    println!("{}: {}", f.signature, f.detail);
+                    if !violations.iter().any(|(s, _)| *s == f.signature) {
+                        println!("{}: {}", f.signature, f.detail);
+                    }
                     let p = write_replay(id, args.seed, &f);
                     violations.push((f.signature.clone(), p));
                 }
@@ -887,7 +889,19 @@ pub fn driver<P: Prop>(args: &DriverArgs) -> i32 {
         wall
     );
     if !violations.is_empty() {
-        for (_, p) in &violations {
+        // one line per distinct signature; keep the smallest replay file
+        let mut by_sig: BTreeMap<String, PathBuf> = BTreeMap::new();
+        for (sig, p) in &violations {
+            let size = |p: &PathBuf| std::fs::metadata(p).map(|m| m.len()).unwrap_or(u64::MAX);
+            match by_sig.get(sig) {
+                Some(q) if size(q) <= size(p) => {}
+                _ => {
+                    by_sig.insert(sig.clone(), p.clone());
+                }
+            }
+        }
+        for (sig, p) in &by_sig {
+            println!("violation: {sig}");
             println!("VIOLATION property={id} replay={}", p.display());
         }
         return 1;
